@@ -102,6 +102,30 @@ def gen_cases(tier, seed):
                         dist = (t / pp) ** 0.5
                         chs.append({"pos": [cg.dyadic(pc + dist * x / nv, 20) for pc, x in zip(P, v)], "q": rng.choice([1.0, -2.5])})
                 cases.append({"id": len(cases) + 1, "kind": "pair", "basis": [sa, sb], "charges": chs, "raw": [[0, 1], [1, 0]]})
+    for la in range(2, 6):
+        for lb in range(2, 6):
+            if la + lb < 6 or (quick and (la + lb + seed) % 2):
+                continue
+            # the tail regime: two diffuse shells so far apart along ONE axis that the Gaussian product prefactor is
+            # 1e-10..1e-15 while the polynomial factors of high angular momenta keep the integral above the tolerance
+            # (a screening threshold is usually a power of ten, 1e-10 .. 1e-14: the largest neglected element lies just beyond
+            # mu R^2 = -ln(threshold), so the highest angular momenta are placed right above each of these)
+            cuts = [23.03, 25.33, 27.63, 29.93, 32.24]
+            wins = [(t_ + 0.03, t_ + 0.5) for t_ in cuts] if la + lb >= 8 else [(23.0, 34.5)] + ([(29.95, 30.4)] if not quick else [])
+            for lo_t, hi_t in wins:
+                rng = cg.rng_for(seed, "C03", "tail", la, lb, lo_t)
+                ea, eb = cg.exponent(rng, 0.3, 1.0, bits), cg.exponent(rng, 0.3, 1.0, bits)
+                mu = cg.val(ea) * cg.val(eb) / (cg.val(ea) + cg.val(eb))
+                dist = cg.dyadic((rng.uniform(lo_t, hi_t) / mu) ** 0.5, 12)
+                ax = rng.randrange(3)
+                cen_b = [[0, 0], [0, 0], [0, 0]]
+                cen_b[ax] = dist
+                sa = {"l": la, "center": [[0, 0]] * 3, "exps": [ea], "coeffs": [[cg.coeff(rng)]], "type": rng.choice(["cartesian", "spherical"])}
+                sb = {"l": lb, "center": cen_b, "exps": [eb], "coeffs": [[cg.coeff(rng)]], "type": rng.choice(["cartesian", "spherical"])}
+                mid = [[0, 0], [0, 0], [0, 0]]
+                mid[ax] = cg.dyadic(cg.val(dist) * cg.val(ea) / (cg.val(ea) + cg.val(eb)) * rng.uniform(0.8, 1.2), 20)
+                ch = [{"pos": mid, "q": 2.0}, {"pos": cg.center(rng, 2.0, 3), "q": -1.0}]
+                cases.append({"id": len(cases) + 1, "kind": "pair", "basis": [sa, sb], "charges": ch, "raw": [[0, 1], [1, 0]]})
     for la, lb in [(1, 1), (2, 1), (1, 3), (0, 2), (3, 3), (4, 1), (2, 2), (5, 1)][: 8 if quick else 8]:
         # two DISTINCT centres 1e-3..1e-5 bohr apart, in a frame tens of bohr from the coordinate origin
         rng = cg.rng_for(seed, "C03", "near", la, lb)
